@@ -6,6 +6,10 @@ import (
 
 var nSites int // number of instrumented yield sites of this build (0 = plain)
 
+// syncSites: yield sites adjacent to a synchronisation operation of the code
+// under test (instrumenter kinds sync-pre / sync-post).
+var syncSites = map[uint32]bool{}
+
 var taskKinds = []struct {
 	kind string
 	w    int
@@ -99,6 +103,22 @@ func genSched(r *Rng, phase string) []*Scenario {
 	}
 	if total == 0 {
 		total = 1
+	}
+	var hitSync []uint32
+	for _, id := range hitSites {
+		if syncSites[id] {
+			hitSync = append(hitSync, id)
+		}
+	}
+	if len(hitSync) > 0 && r.Chance(0.6) {
+		// sync-targeted: park tasks right before / after a synchronisation
+		// operation they execute (atomics, locks, pools, once).  Defects
+		// without a data race in the detector's sense need exactly that.
+		d := r.Range(1, 4)
+		for i := 0; i < d; i++ {
+			s.Switches = append(s.Switches, simrt.SwitchEntry{Task: r.Intn(nt), Quantum: 1 << 40, Site: hitSync[r.Intn(len(hitSync))], Nth: int32(r.Range(1, 3))})
+		}
+		return []*Scenario{s}
 	}
 	switch strat := r.Intn(10); {
 	case strat < 5: // uniform small quanta
